@@ -43,7 +43,7 @@ N = 40
 def frame(which):
     rs = np.random.RandomState(7 + which)
     rid = np.arange(N)
-    return pd.DataFrame({"a": rs.permutation(N), "b": rs.permutation(N) % 9, "c": (rs.rand(N) * 100).round(1), "d": rs.permutation(N)[::-1].copy(), "e": rs.permutation(N) % 5,
+    return pd.DataFrame({"a": rs.permutation(N), "b": rs.permutation(N) % 9, "c": (rs.permutation(N) * 2.5 + 0.1).round(1),  # floats without ties: the order of equal sort keys is unspecified "d": rs.permutation(N)[::-1].copy(), "e": rs.permutation(N) % 5,
                          "s": pd.array(["xyzuv"[i % 5] for i in rs.permutation(N)], dtype="string[pyarrow]"), "rid": rid})
 
 
